@@ -1,7 +1,7 @@
 (* C01 — Result models accept and preserve every conformant response.  Property theorems only. *)
 From Coq Require Import List String Ascii Bool ZArith.
 From AC Require Import Base.Strs Base.Sexp Base.Json Gql.Schema Gql.Exec Py.Ann Py.Pydantic
-     Model.Names Model.Results Proofs.ResultsP Proofs.ResultsRunP Proofs.ResultsAbsP Proofs.ResultsObjP.
+     Model.Names Model.Results Proofs.ResultsP Proofs.ResultsRunP Proofs.ResultsAbsP Proofs.ResultsObjP Proofs.ResultsMixP.
 Import ListNotations.
 Local Open Scope string_scope.
 Local Open Scope list_scope.
@@ -58,6 +58,43 @@ Theorem C01_preserves_partial :
     covers n cls (AClass (pascal_s name)) j = true.
 Proof. exact op_covers. Qed.
 Print Assumptions C01_preserves_partial.
+
+(* ---- proved: acceptance with fragment spreads used as MIXIN base classes (sub-language op_okM =
+        op_ok + spreads the generator turns into base classes: unconditional, fragment on the same type,
+        no @mixin on the fragment, the fragment's own selection set again in the sub-language, mixins of
+        mixins to any depth; the response keys of the whole object — own fields and all inherited ones —
+        pairwise distinct and disjoint from the aliased Python names).  Ghost-output guards on all_classes'
+        table: class names pairwise distinct, none called BaseModel, no skip in the operation's and in any
+        fragment's generation.  Validation fuel n >= F + g + 2 (F: generator fuel, g: the guard's fuel, which
+        bounds nesting and mixin depth). ---- *)
+Theorem C01_accepts_partial_mixins :
+  forall C S frs F kind name sels root own pub' cls g cov fc j n,
+    root_type_name S kind = Ok root ->
+    op_parse F C S frs kind name [] sels = Ok (own, pub', false) ->
+    all_classes F C S frs (DOp kind name [] sels) = Ok cls ->
+    op_okM g cov C S frs root sels = true ->
+    nodupb (map c_name cls) = true -> no_basemodel cls = true -> frag_no_skip F C S frs = true ->
+    conf_op fc S frs root sels j = true ->
+    n >= F + g + 2 ->
+    accepts n cls (schema_enums S) (AClass (pascal_s name)) j = true.
+Proof. exact op_accepts_mix. Qed.
+Print Assumptions C01_accepts_partial_mixins.
+
+(* per class, with everything it inherits (mro_fields) *)
+Theorem C01_class_with_mixins_accepts :
+  forall C S frs F cls cov,
+    NoDup (map c_name cls) -> no_basemodel cls = true ->
+    (forall fm, In fm frs -> unpack_fragment S fm None = false ->
+       exists out pub', parse_type_def F C S frs [] (pascal_s (fr_name fm)) (fr_on fm) (fr_sel fm) false
+                                        (fr_mixins fm) None = Ok (out, pub', false) /\ incl out cls) ->
+    forall g fuel pub cn rt r sels at_ tv top nested out pub' k l N kv fc,
+      fuel <= F -> parse_type_def fuel C S frs pub cn r sels at_ [] tv = Ok (out, pub', false) ->
+      sels_okM g cov C S frs top nested rt r sels = true -> tv_ok nested rt tv ->
+      (at_ = true -> has_typename sels = true) -> table_ok cls out ->
+      collect k S frs rt false sels = Some l -> incl l N -> amb C S frs N rt kv fc ->
+      class_good S F cls g cn kv.
+Proof. exact mix_main. Qed.
+Print Assumptions C01_class_with_mixins_accepts.
 
 (* the same at the level of one generated class (any nesting depth below it), for any class table that
    resolves the generated names to the generated classes *)
@@ -295,5 +332,40 @@ Proof.
   split; [reflexivity|].
   split; [vm_compute; reflexivity|].      (* instantiates own, pub' *)
   split; [vm_compute; reflexivity|].      (* instantiates cls *)
+  vm_compute. repeat split.
+Qed.
+
+(* ---- non-vacuity of C01_accepts_partial_mixins: a mixin whose fragment spreads another mixin and
+        contains a nested object ---- *)
+Definition frsM : list fragdef :=
+  [{| fr_name := "UserBits"; fr_on := "User"; fr_mixins := [];
+      fr_sel := [SField None "fullName" true [] None; SSpread "UserMore" false] |};
+   {| fr_name := "UserMore"; fr_on := "User"; fr_mixins := [];
+      fr_sel := [SField (Some "homeAddress") "address" false [] (Some [SField None "city" false [] None])] |}].
+Definition selsM : list sel :=
+  [SField None "users" false []
+     (Some [SField None "__typename" false [] None; SField None "id" false [] None;
+            SSpread "UserBits" false; SField None "role" false [] None])].
+Definition jM : json :=
+  JObj [("users", JArr [JObj [("__typename", JStr "User"); ("id", JStr "1"); ("fullName", JStr "A");
+                              ("homeAddress", JObj [("city", JStr "X")]); ("role", JStr "ADMIN")];
+                        JObj [("__typename", JStr "User"); ("id", JStr "2");
+                              ("homeAddress", JNull); ("role", JStr "USER")]])].
+
+Example C01_mixins_hypotheses_satisfiable :
+  exists own pub' cls,
+    root_type_name SX "query" = Ok "Query" /\
+    op_parse 10 C0 SX frsM "query" "GetUsers" [] selsM = Ok (own, pub', false) /\
+    all_classes 10 C0 SX frsM (DOp "query" "GetUsers" [] selsM) = Ok cls /\
+    op_okM 10 true C0 SX frsM "Query" selsM = true /\
+    nodupb (map c_name cls) = true /\ no_basemodel cls = true /\ frag_no_skip 10 C0 SX frsM = true /\
+    conf_op 10 SX frsM "Query" selsM jM = true /\
+    map c_bases cls = [["BaseModel"]; ["UserBits"]; ["UserMore"]; ["BaseModel"]; ["BaseModel"]] /\
+    accepts 22 cls (schema_enums SX) (AClass (pascal_s "GetUsers")) jM = true.
+Proof.
+  do 3 eexists.
+  split; [reflexivity|].
+  split; [vm_compute; reflexivity|].
+  split; [vm_compute; reflexivity|].
   vm_compute. repeat split.
 Qed.
